@@ -329,7 +329,8 @@ class PtypeScenario(Scenario):
         return {'scenario': self.name, 'world': world, 'events': events}
 
     def illegal_event(self, rng, world, c, w, P, pids, new_id, tag):
-        opts = [pid for pid in pids if self.doc.result(w['t'], P[pid]['pt']) is None and self.px_ok(w, P[pid])]
+        # the statement promises TypeError for every forbidden product, also when the samplings disagree as well
+        opts = [pid for pid in pids if self.doc.result(w['t'], P[pid]['pt']) is None]
         if w['t'] == 'none' and rng.random() < 0.5 or not opts:
             if w['t'] != 'none':
                 return None
@@ -390,6 +391,8 @@ class PtypeScenario(Scenario):
             for meth2 in PROP:
                 ev2, res2 = self.prop_event(rng, world, 0, res, 'pu_%s_%s' % (meth, meth2), method=meth2)
                 events.append(ev2)
+            events.append({'c': 0, 'fn': 'Plane.multiply', 'a': ['@PUP', '@' + res['id']], 'id': 'badpx_' + meth, 't': {'px_conflict': True}})
+            events.append({'c': 0, 'fn': 'w*p', 'a': ['@' + res['id'], '@PLN'], 'id': 'badpx2_' + meth, 't': {'px_conflict': True}})
             events.append({'c': 0, 'fn': 'Plane.multiply', 'a': ['@IMGA', '@' + res['id']], 'id': 'ia_' + meth})
             events.append({'c': 0, 'fn': 'Plane.multiply', 'a': ['@TLT', '@' + res['id']], 'id': 'it_' + meth})
             events.append({'c': 0, 'fn': 'Plane.multiply', 'a': ['@DSP', '@' + res['id']], 'id': 'id_' + meth})
